@@ -360,6 +360,9 @@ func checkC04(c *Ctx) error {
 			}
 			r.Nontrivial(src)
 			r.Count("rejected."+cp.scenario, 1)
+			if i < 2 || i == n {
+				r.Sample(map[string]interface{}{"scenario": cp.scenario, "verdict": "rejected: " + pr.Compile.FirstError(), "program": src})
+			}
 			return
 		}
 		if pr.Run.Kind == core.RunTimeout || pr.Run.Kind == core.RunError {
@@ -380,7 +383,7 @@ func checkC04(c *Ctx) error {
 		} else {
 			r.Count("accepted_and_equal."+cp.scenario, 1)
 		}
-		if i < 3 {
+		if i < 3 || i == n+1 || i == n+7 {
 			r.Sample(map[string]interface{}{"scenario": cp.scenario, "program": src, "reference": exp.Lines, "panic": exp.Panic})
 		}
 	})
